@@ -220,7 +220,7 @@ fn validate_use_of_arguments_for_client_type<TCompilationProfile: CompilationPro
                         &mut reachable_variables,
                         field_argument_definitions,
                         variable_definitions,
-                        true,
+                        false,
                         &object_selection.arguments,
                         object_selection.name.location,
                     );
